@@ -8,12 +8,13 @@ CLAIM = ('Proof by exhaustive static enumeration, for the Linux/x86-64 build, th
          'secure VMs, nor for cache-owned code buffers: (1) every mmap/mprotect request of the library has constant protection, and the only function introducing W+X is setPagesRWX; '
          '(2) setPagesRWX is unreachable from every member function of every secure VM instantiation, from the cache/dataset API and from all JitCompiler members except enableAll; '
          '(3) randomx_create_vm selects the secure instantiation exactly when RANDOMX_FLAG_SECURE is set and never re-enters creation with altered flags, and nothing else constructs compiled VMs; '
-         '(4) in every secure method and in initCacheCompile code generation happens between enableWriting and enableExecution. Obligations = sites + reachability queries + class cases + bracket points.')
+         '(4) in every secure method and in initCacheCompile code generation happens between enableWriting and enableExecution. Obligations = sites + reachability queries + class cases + bracket points.'
+         ' For the A64 and RV64 back-ends (which this host does not compile) the RW / RX / RWX helpers behind enableWriting / enableExecution / enableAll and the mapping sizes are checked on the cross-parsed AST, and their secure instantiations never call enableAll (WX-ARCH).')
 LEVEL_NOTE = ('Trusted base: clang 14 AST/IR for these units with the build flags; type-based resolution of indirect calls (over-approximate); the kernel honours mprotect; '
               'no other library code changes page protections (closed by WX-SITES over all units and the absence of syscall instructions in the .S file). The A64/RV64 back-ends are covered by C19/C20.')
 TRUSTED_BASE = ['clang 14 front end and -O0 lowering', 'type-based indirect-call resolution (sound over-approximation for reachability)', 'Linux mprotect/mmap semantics',
                 'hand-written assembly contains no system call (checked)']
-EXPLANATION = 'WX-SITES, WX-REACH, WX-CLASS, WX-BRACKET over the linked IR of all 25 units and the resolved AST of randomx.cpp, vm_compiled*.cpp, dataset.cpp, jit_compiler_x86.cpp.'
+EXPLANATION = 'WX-SITES, WX-REACH, WX-CLASS, WX-BRACKET over the linked IR of all 25 units and the resolved AST of randomx.cpp, vm_compiled*.cpp, dataset.cpp, jit_compiler_x86.cpp. WX-ARCH for K2 / K3.'
 
 
 def run(ctx, R):
